@@ -1,4 +1,4 @@
-# scope=recv pool=- expect=var.k=F_a;var.k2=F_b;var.t=Thu, 01 Jan 1970 00:00:00 GMT;var.ip=10.0.0.1
+# scope=recv pool=- expect=var.k=F_a;var.k2=F_b;var.ip=10.0.0.1
 # parameters of every type are passed by value, BACKEND / TIME / IP included, through call and through a functional subroutine
 backend F_a { .host = "127.0.0.1"; .port = "80"; }
 backend F_b { .host = "127.0.0.2"; .port = "80"; }
